@@ -35,20 +35,14 @@ def consts(ctx, binp):
 
 
 def schema_types(ctx, k):
-    """Type names of Schema.tla (asked from TLC so that the list lives in one place)."""
-    wd = ctx.sub("schema-names")
-    vf.stage_specs(wd)
-    outp = os.path.join(wd, "names.json")
-    mod = "CodecNames_tmp"
-    with open(os.path.join(wd, mod + ".tla"), "w") as f:
-        f.write("---- MODULE %s ----\nEXTENDS Schema, Json, SequencesExt\nCONSTANT OutFile\nVARIABLE x\n"
-                "ASSUME JsonSerialize(OutFile, SetToSeq(TypeNames))\nGenInit == x = 0\nGenNext == FALSE /\\ x' = x\n====\n" % mod)
-    c = dict(k)
-    c["OutFile"] = '"%s"' % outp
-    res = vf.tlc(ctx, wd, mod, vf.cfg_text(constants=c, spec=None, init="GenInit", next_="GenNext"), workers=1, timeout=120, heap="1g")
-    if not os.path.exists(outp):
-        raise vf.Infra("could not list schema types:\n" + res.tail(40))
-    return sorted(json.load(open(outp)))
+    """Type names of Schema.tla: the keys of the record `Schema == [ name |-> descriptor, ... ]` (the list lives in one place)."""
+    import re
+    src = open(os.path.join(vf.SPEC, "codec", "Schema.tla")).read()
+    body = src[src.index("\nSchema == ["):src.index("\nTypeNames ==")]
+    names = sorted(set(re.findall(r"(\w+) \|->", body)))
+    if len(names) < 100:
+        raise vf.Infra("could not read the type names from Schema.tla")
+    return names
 
 
 def shard_by_size(lines, max_bytes=2500000, max_lines=6000):
@@ -126,11 +120,12 @@ MC_HUGE = ["State", "ReadyQueue", "AuthQueues", "AuthQueue", "SafroleState", "Va
            "WorkPackageBundle", "FuzzSetState", "Statistics", "AvailabilityAssignments"]
 
 
-def mc_codec(ctx, k):
-    """Design check: round trip + layout agreement for every schema type, prefix-freeness and strictness on mutants."""
+def mc_codec(ctx, k, part="both"):
+    """Design check: round trip + layout agreement for every schema type, prefix-freeness and strictness on mutants.
+    In the quick tier C11 explores the value pairs (prefix-freeness) and C13 the mutants (strictness); thorough does both."""
     names = schema_types(ctx, k)
     if ctx.quick:
-        mut, pair, kk = MC_QUICK, MC_QUICK, 2
+        mut, pair, kk = (MC_QUICK if part != "pairs" else []), (MC_QUICK if part != "mutants" else []), 2
     else:
         mut = [n for n in names if n not in MC_HUGE]
         pair, kk = mut, 4
